@@ -9,7 +9,8 @@ open NQ.QM
 def bodyOfJson (j : Json) : Option Body := do
   let g ← (jField? j "g").bind jNat?
   let c ← (jField? j "c").bind jStr?
-  if c == "meas" then pure ⟨g, .meas⟩ else if c == "free" then pure ⟨g, .free⟩ else none
+  if c == "meas" then pure ⟨g, .meas⟩ else if c == "free" then pure ⟨g, .free⟩
+  else if c == "inplace" then pure ⟨g, .inplace⟩ else if c == "none" then pure ⟨g, .none⟩ else none
 
 def qmOpOfJson (j : Json) : Option Op := do
   let k ← (jField? j "k").bind jStr?
@@ -33,6 +34,11 @@ def qmOpOfJson (j : Json) : Option Op := do
     let n ← (jField? j "n").bind jNat?
     let b ← (jField? j "body").bind bodyOfJson
     pure (.seq r n b)
+  else if k == "postk" then do
+    let r ← (jField? j "recv").bind jBool?
+    let n ← (jField? j "n").bind jNat?
+    let b ← (jField? j "body").bind bodyOfJson
+    pure (.postk r n b)
   else if k == "ctx" then do
     let r ← (jField? j "recv").bind jBool?
     let n ← (jField? j "n").bind jNat?
